@@ -3179,6 +3179,12 @@ def _campaigns(ck: Ck, built: bool, background: '_TheoremsInBackground | None' =
         if cond:
             for nme in names:
                 ck.explain(nme)
+    # the composite obligation is the conjunction of others (proto_ok, exit_returns_normally_iff_renamed, reuse_indep,
+    # reentry_ok): it is explained exactly when every other failed instance obligation is
+    comp = 'instance:c12_property_of_generated_object_hypotheses'
+    others = [o for o in ck.obligations if not o['ok'] and o['name'].startswith('instance:') and o['name'] != comp]
+    if others and all(o.get('explained') for o in others):
+        ck.explain(comp)
 
 
 def single_campaign_bsp(ck: Ck, bscs: list[dict], do_model: bool) -> None:
